@@ -5,10 +5,18 @@ with an unambiguous token syntax, see qsyntax.py), tokenised into `( ) and or no
 Deciding comparison (Lean driver `rule.sem`): the token list, read by the *target language's* precedence
 (`ConvSpec.readQ`), has the same truth table over all atoms as the specification reading of the rule
 document (`Rule.ruleBE`: map = AND, list = OR, modifiers per `Mods.applyChain`, condition per `CondSpec.read`).
-Diagnostic comparison (`conv.run`): the token skeleton equals the model converter's (`Conv.convert`) on the
-implementation's own post-processed condition tree."""
+Diagnostic comparison (`conv.run`, "drift"): the model converter `Conv.convert` — the function the theorems of
+Props/C01.lean are about — is run on the implementation's own post-processed condition tree
+(`rule.detection.parsed_condition[i].parsed`, walked after the conversion) and must emit exactly the token
+skeleton of the real query: same parentheses, NOT/AND/OR tokens, atoms (by leaf identity), negated-twin atoms
+and in-lists, in the same order.  A difference is reported as drift (evidence `model_drift`), never as a
+violation: it says that the theorems talk about a converter that is not the one in sigma/conversion/base.py.
+
+What the drift comparison deliberately does not see (the model abstracts from it; see ASSUMPTIONS):
+how a single atom is spelled (template choice startswith/endswith/contains/wildcard-match, escaping — C05 and the
+deciding comparison), deferred query parts (not produced by the harness backend), correlation conditions."""
 from __future__ import annotations
-import random
+import json, random
 from .common import Verdict, cps, outcome_of_exception
 from . import qsyntax
 from .c03 import plain
@@ -21,12 +29,20 @@ RULE = ("rules = 1..3 detections (maps, lists of maps, keyword lists, plain valu
         "parentheses/selectors; x backend configurations = 6 precedence orders x parenthesize x in-list knobs x "
         "presence/allow_special of the string operators x cased operators x explicit not-exists x native CIDR x "
         "NOT-as-not-equals; all truth assignments of the rule's atoms; distinct = distinct (rule, configuration); "
-        "non-trivial = >= 2 atoms and an operator, or an in-list / string-operator / expansion shortcut taken")
+        "non-trivial = >= 2 atoms and an operator, or an in-list / string-operator / expansion shortcut taken; "
+        "plus drift-only probes: the same rules behind a pipeline dropping the items of 1..3 fields (vanished operands, "
+        "one-operand nodes, vanished conditions), compared with the model converter only")
 ASSUMPTIONS = [
     "atoms are independent boolean variables identified by (field, match kind, decoded value): equivalence is judged as boolean functions of these",
     "the emitted text is tokenised by harness/qsyntax.py for a fixed unambiguous template syntax (string/field escaping itself is C05's subject)",
     "IPv4 CIDR values only (IPv6 expansion is C18's subject); a non-native CIDR atom means the OR of the patterns of the Lean expand4 model",
     "NotImplementedError for a feature the configuration lacks is an admissible outcome (not judged)",
+    "drift: a leaf of the implementation's condition tree is identified with the canonical atom of its isolated rendering by the same backend (parentless copy of the leaf through convert_condition, tokenised by qsyntax); the drift comparison is therefore blind to the spelling of a single atom",
+    "drift: the harness classifies leaves as the dispatch does: SigmaExpansion value -> CT.exp over its values; CIDR value and cidr_expression None -> CT.cidr over SigmaCIDRExpression.expand(); SigmaExists(False) and no field_not_exists_expression -> CT.nex; everything else -> CT.atom",
+    "drift: AtomInfo.negatable := the template kind of the isolated rendering belongs to an attribute swapped by not_equals_context_manager (list regenerated from the source, Gen.Conv.swapped); the harness backend defines every not_* twin whenever it defines the positive template",
+    "drift: AtomInfo.inOk / special := isinstance tests against the class names regenerated from decide_convert_condition_as_in_expression (Gen.Conv.inValueClasses / inExcluded / inSpecialClasses) and SigmaString.contains_special(); field identity = the field name",
+    "drift: adjacent multi-character wildcards are collapsed before atoms are identified (a lone `*` is rendered `contains ''` as an atom and `*` as an in-list element)",
+    "drift: deferred query expressions and backend-specific overrides of convert_condition_* are not exercised (TextQueryBackend as is)",
 ]
 
 FIELDS = ["f", "g", "h_1", "field name"]
@@ -131,6 +147,19 @@ def gen_cases(tier, seed, gen, effort):
             conds = [conds, rnd.choice({1: CONDS_1, 2: CONDS_2, 3: CONDS_3}[k])]
         for _ in range(2 if not thorough else 3):
             cases.append({"dets": dets, "cond": conds, "cfg": gen_cfg(rnd)})
+    # drift-only probes: the same rules behind a pipeline that drops the detection items of some fields, so that the
+    # condition tree contains vanished operands (`None`), one-operand AND/OR nodes and conditions that vanish as a whole.
+    # What dropping means for the rule is C13's subject: the deciding comparison is skipped for these cases.
+    rnd2 = random.Random(seed * 9176 + 2)
+    for _ in range((400 if not thorough else 8000) * effort):
+        k = rnd2.choice([2, 3, 3])
+        names = ["sel", "flt", "sel2"][:k]
+        dets = {nm: gen_det(rnd2) for nm in names}
+        conds = rnd2.choice({2: CONDS_2, 3: CONDS_3}[k])
+        if rnd2.random() < 0.15:
+            conds = [conds, rnd2.choice({2: CONDS_2, 3: CONDS_3}[k])]
+        drop = sorted(rnd2.sample(FIELDS + ["ip"], rnd2.choice([1, 2, 2, 3])))
+        cases.append({"dets": dets, "cond": conds, "cfg": gen_cfg(rnd2), "drop": drop})
     # all 6 precedences x parenthesize on a fixed rule family (systematic part)
     fam = [({"sel": {"f": "a"}, "flt": {"g": 1}, "sel2": {"h_1|contains": ["x", "y"]}}, c) for c in CONDS_3]
     for dets, cond in fam:
@@ -146,11 +175,17 @@ def gen_cases(tier, seed, gen, effort):
 _bk = {}
 
 
-def backend_for(cfg):
+def backend_for(cfg, drop=None):
     key = repr(sorted(cfg.items()))
     if key not in _bk:
         _bk[key] = qsyntax.make_backend(cfg)
-    return _bk[key]()
+    if not drop:
+        return _bk[key]()
+    from sigma.processing.pipeline import ProcessingPipeline, ProcessingItem
+    from sigma.processing.transformations import DropDetectionItemTransformation
+    from sigma.processing.conditions import IncludeFieldCondition
+    return _bk[key](processing_pipeline=ProcessingPipeline([ProcessingItem(
+        DropDetectionItemTransformation(), field_name_conditions=[IncludeFieldCondition(list(drop))])]))
 
 
 def run_impl(case):
@@ -158,13 +193,192 @@ def run_impl(case):
     try:
         coll = SigmaCollection.from_dicts([{"title": "t", "logsource": {"category": "c"},
                                             "detection": {**case["dets"], "condition": case["cond"]}}])
-        b = backend_for(case["cfg"])
+        b = backend_for(case["cfg"], case.get("drop"))
         qs = b.convert(coll)
-        return {"outcome": "ok", "queries": qs}
+        out = {"outcome": "ok", "queries": qs}
+        try:
+            out.update(impl_trees(coll.rules[0], b))
+        except Exception as e:      # the drift comparison is diagnostic: never let it decide the outcome
+            out["trees"] = None
+            out["treeErr"] = f"{type(e).__name__}: {e}"[:200]
+        return out
     except NotImplementedError as e:
         return {"outcome": "unsupported", "msg": str(e)[:100]}
     except Exception as e:
         return {"outcome": outcome_of_exception(e), "msg": str(e)[:160]}
+
+
+# ------------------------------------------------------------------ drift: the implementation's condition tree
+def _leaf(cond, b):
+    """facts about one field/value or value-only expression + the token of its isolated rendering"""
+    from sigma.conversion.state import ConversionState
+    toks = qsyntax.tokenize(b.convert_condition(cond, ConversionState()), kinds=True)
+    if len(toks) != 1 or not isinstance(toks[0], dict) or "in" in toks[0]:
+        raise ValueError(f"leaf {cond!r} renders to {len(toks)} tokens")
+    v = cond.value
+    return {"f": getattr(cond, "field", None), "mro": [c.__name__ for c in type(v).__mro__],
+            "cs": bool(v.contains_special()) if hasattr(v, "contains_special") else None, "tok": toks[0]}
+
+
+def _tree(node, b):
+    from sigma.conditions import (ConditionAND, ConditionOR, ConditionNOT, ConditionFieldEqualsValueExpression as FE,
+                                  ConditionValueExpression as VE)
+    from sigma.types import SigmaExpansion, SigmaCIDRExpression, SigmaExists, SigmaString
+    if node is None:
+        return None
+    if isinstance(node, ConditionAND):
+        return {"and": [_tree(a, b) for a in node.args]}
+    if isinstance(node, ConditionOR):
+        return {"or": [_tree(a, b) for a in node.args]}
+    if isinstance(node, ConditionNOT):
+        return {"not": _tree(node.args[0], b)}
+    if isinstance(node, (FE, VE)):
+        bound = isinstance(node, FE)
+        v = node.value
+        mk = (lambda x: FE(node.field, x)) if bound else (lambda x: VE(x))
+        if isinstance(v, SigmaExpansion):
+            return {"exp": [_leaf(mk(x), b) for x in v.values]}
+        if bound and isinstance(v, SigmaCIDRExpression) and b.cidr_expression is None:
+            return {"cidr": [_leaf(mk(SigmaString(n)), b) for n in v.expand()]}
+        if bound and isinstance(v, SigmaExists) and not v and not b.explicit_not_exists_expression:
+            return {"nex": _leaf(mk(SigmaExists(True)), b)}
+        return {"atom": _leaf(mk(v), b)}
+    raise TypeError(f"unexpected node {type(node).__name__}")
+
+
+def impl_trees(rule, b):
+    cls = type(b)
+    kinds = {}
+    for name in dir(cls):
+        val = getattr(cls, name, None)
+        if name.endswith("_expression") and isinstance(val, str) and val.startswith("["):
+            kinds[name] = val[1:].split(" ", 1)[0]
+    from sigma.conversion.state import ConversionState
+    return {"trees": [_tree(pc.parsed, b) for pc in rule.detection.parsed_condition], "tmplKinds": kinds,
+            # which conditions convert to nothing (`convert_rule` silently leaves their queries out)
+            "vanished": [b.convert_condition(pc.parsed, ConversionState()) is None for pc in rule.detection.parsed_condition]}
+
+
+def tree_features(t, out=None, under_not=False):
+    """distribution tags: which shapes the drift comparison saw"""
+    out = set() if out is None else out
+    if t is None:
+        out.add("vanished-operand")
+    elif "and" in t or "or" in t:
+        k = "and" if "and" in t else "or"
+        if len(t[k]) == 1: out.add("one-operand-node")
+        for x in t[k]: tree_features(x, out, under_not)
+    elif "not" in t:
+        if under_not: out.add("not-in-not")
+        tree_features(t["not"], out, True)
+    else:
+        k = next(iter(t))
+        out.add(k if k != "atom" else "atom")
+        if under_not and k in ("exp", "cidr", "nex"): out.add(k + "-under-not")
+    return out
+
+
+def aligned_queries(impl, nconds):
+    """per condition: its query, or None where the condition vanished; None if the counts do not add up"""
+    van = impl.get("vanished")
+    if not impl.get("trees") or van is None or len(van) != nconds or len(impl["trees"]) != nconds:
+        return None
+    if len(impl["queries"]) != van.count(False):
+        return None
+    it = iter(impl["queries"])
+    return [None if v else next(it) for v in van]
+
+
+CONV_DEFAULTS = {"swapped": ["eq_expression"], "inValueClasses": ["SigmaString", "SigmaNumber"], "inExcluded": ["SigmaCasedString"],
+                 "inSpecialClasses": ["SigmaString"]}
+
+
+def _akey(pol, a):
+    """canonical key of an atom token; adjacent multi-character wildcards are collapsed (`[ct f ""]` = `*` + `*` is the
+    atom the in-list element `"*"` denotes; same normalisation as the driver's `collapseStars`)"""
+    if a.get("k") == "str":
+        pat = []
+        for x in a["pat"]:
+            if not (x == "*" and pat and pat[-1] == "*"):
+                pat.append(x)
+        a = dict(a, pat=pat)
+    return json.dumps([pol, a], sort_keys=True)
+
+
+def conv_request(tree, cfg, kinds, g):
+    """-> (request for the Lean driver, {atom key -> id})"""
+    g = dict(CONV_DEFAULTS, **(g or {}))
+    negkinds = {kinds[a] for a in g["swapped"] if a in kinds}
+    table, fields = {}, {}
+
+    def key(tok):
+        pol = "natom" if "natom" in tok else "atom"
+        return _akey(pol, tok[pol])
+
+    def one(l):
+        i = table.setdefault(key(l["tok"]), len(table))
+        mro = set(l["mro"])
+        info = {"field": None if l["f"] is None else fields.setdefault(l["f"], len(fields)),
+                "inOk": bool(mro & set(g["inValueClasses"])) and not (mro & set(g["inExcluded"])),
+                "special": bool(l["cs"]) and bool(mro & set(g["inSpecialClasses"])),
+                "negatable": l["tok"].get("t") in negkinds}
+        return i, info
+
+    def walk(t):
+        if t is None:
+            return None
+        if "and" in t: return {"and": [walk(x) for x in t["and"]]}
+        if "or" in t: return {"or": [walk(x) for x in t["or"]]}
+        if "not" in t: return {"not": walk(t["not"])}
+        if "atom" in t:
+            i, info = one(t["atom"]); return {"atom": i, "info": info}
+        if "nex" in t:
+            i, info = one(t["nex"]); return {"nex": i, "info": info}
+        k = "exp" if "exp" in t else "cidr"
+        return {k: [list(one(l)) for l in t[k]]}
+    req = {"op": "conv.run", "tree": walk(tree),
+           "cfg": {k: cfg[k] for k in ("prec", "parenthesize", "orAsIn", "andAsIn", "inAllowWild", "notAsNotEq")}}
+    return req, table
+
+
+def impl_skeleton(query, table):
+    """the real query as the model's token list: atoms by leaf id; None entries = an atom no leaf accounts for"""
+    out = []
+    for t in qsyntax.tokenize(query, kinds=True):
+        if isinstance(t, str):
+            out.append(t); continue
+        if "in" in t:
+            ids = [table.get(_akey("atom", a)) for a in t["in"]["atoms"]]
+            out.append(["in", bool(t["in"]["or"]), ids]); continue
+        pol = "natom" if "natom" in t else "atom"
+        a = t[pol]
+        i = table.get(_akey(pol, a))
+        if i is not None:
+            out.append(["a", i])                       # the leaf's own rendering
+        elif pol == "natom" and _akey("atom", a) in table:
+            out.append(["n", table[_akey("atom", a)]])     # its negated twin
+        else:
+            out.append(["?", None])
+    return out
+
+
+def model_skeleton(reply):
+    if reply.get("vanished"):
+        return None
+    out = []
+    for t in reply["tokens"]:
+        if isinstance(t, str): out.append(t)
+        elif "atom" in t: out.append(["a", t["atom"]])
+        elif "natom" in t: out.append(["n", t["natom"]])
+        else: out.append(["in", bool(t["in"]["or"]), list(t["in"]["ids"])])
+    return out
+
+
+def show_skel(sk):
+    if sk is None:
+        return "<nothing>"
+    return " ".join(t.upper() if isinstance(t, str) else (f"a{t[1]}" if t[0] == "a" else f"!a{t[1]}" if t[0] == "n" else
+                    f"in{'|' if t[1] else '&'}{t[2]}" if t[0] == "in" else "<unknown atom>") for t in sk)
 
 
 def det_json(d):
@@ -177,7 +391,8 @@ def det_json(d):
     return {"values": [plain(d)]}
 
 
-def make_request(case, impl, gen):
+def make_sem_request(case, impl, gen):
+    """the deciding comparison's request (`rule.batch`); also used by C17"""
     conds = case["cond"] if isinstance(case["cond"], list) else [case["cond"]]
     text = repr(case["dets"])
     import re as _re
@@ -200,7 +415,64 @@ def make_request(case, impl, gen):
     return base
 
 
+def make_request(case, impl, gen):
+    """one line per case: part 0 = the deciding comparison, parts 1.. = `conv.run` per condition"""
+    conds = case["cond"] if isinstance(case["cond"], list) else [case["cond"]]
+    parts = [make_sem_request(case, impl, gen) if not case.get("drop") else {"op": "ping"}]
+    impl.pop("conv", None)
+    qs = aligned_queries(impl, len(conds)) if impl["outcome"] == "ok" else None
+    if qs is not None:
+        conv = []
+        for tree, q in zip(impl["trees"], qs):
+            req, table = conv_request(tree, case["cfg"], impl.get("tmplKinds", {}), gen.get("Conv"))
+            conv.append({"part": len(parts), "table": table, "query": q, "tree": tree})
+            parts.append(req)
+        impl["conv"] = conv          # read back by judge (same object)
+    return {"op": "multi", "parts": parts}
+
+
 def judge(case, impl, reply):
+    """the deciding comparison, then — whatever it said — the drift comparison"""
+    if case.get("drop"):
+        v = Verdict("ok", "", False, (case["dets"], case["cond"], sorted(case["cfg"].items()), case["drop"]),
+                    tags=("drop-probe", f"impl:{impl['outcome'].split(':')[0]}"))
+    else:
+        v = judge_sem(case, impl, reply["parts"][0])
+    tags = list(v.tags)
+    drift = []
+    if impl["outcome"] == "ok" and "conv" not in impl:
+        tags.append("drift:unjudged")        # tree not extractable / a condition vanished
+    for c, cv in zip(case["cond"] if isinstance(case["cond"], list) else [case["cond"]], impl.get("conv", [])):
+        q = cv["query"]
+        try:
+            mine = impl_skeleton(q, cv["table"]) if q is not None else None
+        except qsyntax.Tokenize:
+            tags.append("drift:unjudged"); continue
+        model = model_skeleton(reply["parts"][cv["part"]])
+        tags.append("drift:compared" if q is not None else "drift:compared-vanished")
+        tags += [f"drift-tree:{f}" for f in sorted(tree_features(cv["tree"])) if f != "atom"]
+        if case["cfg"]["notAsNotEq"] and mine and any(isinstance(t, list) and t[0] == "n" for t in mine): tags.append("drift-tree:negated-twin")
+        if mine != model:
+            drift.append(f"condition {c!r} over {case['dets']} under {short(case['cfg'])}: implementation emits  {show_skel(mine)}  "
+                         f"the model converter emits  {show_skel(model)}  (query {q!r}; atoms {show_legend(cv['table'])})")
+    v.tags = tuple(tags)
+    if drift:
+        if v.status == "ok":
+            return Verdict("drift", drift[0], v.nontrivial, v.key, tags=v.tags + ("drift:differs",))
+        v.drift = drift[0]
+        v.tags = v.tags + ("drift:differs",)
+    return v
+
+
+def show_legend(table):
+    out = []
+    for k, i in sorted(table.items(), key=lambda kv: kv[1]):
+        pol, a = json.loads(k)
+        out.append(f"a{i}={'not ' if pol == 'natom' else ''}{show_atoms([a])[1:-1]}")
+    return "; ".join(out)
+
+
+def judge_sem(case, impl, reply):
     io = impl["outcome"]
     cfg = case["cfg"]
     key = (case["dets"], case["cond"], sorted(cfg.items()))
